@@ -85,6 +85,22 @@ def check(chk):
         negs = [e for o in outs if o.kind == 'ok' for e in o.events if e[0] == 'pack' and e[2] == '-1']
         chk.judge(bool(negs) and all(C.fmt.get(e[1]) == '>i' for e in negs), 'C02.coll', W, '%s writer: null field is int32 -1' % cname,
                   'a null tuple/UDT field is not written as a 4-byte -1 length')
+    # reader side of the same convention: exactly the negative lengths mean null (a zero-length element is an empty value)
+    for cname in ('_SimpleParameterizedType', 'MapType', 'TupleType', 'UserType'):
+        c = mod.cls(cname)
+        R, ro = C.find_method(c, 'deserialize_safe')
+        outs = C.run(c, R, ro, 4, {'cls': Sym('cls')})
+        atoms = set()
+        for o in outs:
+            if o.kind != 'ok':
+                continue
+            for text, val in o.choices:
+                k, flip = normalise_atom(ast.parse(text, mode='eval').body)
+                if 'len' in k.lower() and ('< 0' in k or '0 <' in k):
+                    atoms.add(k)
+        good = bool(atoms) and all(k.endswith(' < 0') for k in atoms)
+        chk.judge(good, 'C02.coll', R, '%s reader: null exactly for a negative element length (tests: %s)' % (cname, sorted(atoms)),
+                  'the reader separates null from present elements by %s: a zero-length element (empty text/blob) is decoded as null, or a negative length is not' % sorted(atoms))
     # vector
     vc = mod.cls('VectorType')
     W, _ = C.find_method(vc, 'serialize')
@@ -238,6 +254,13 @@ def check(chk):
                   'a value too large for a vint is not rejected')
         thr = [n for n in body_walk(f) if isinstance(n, ast.If) and normalise_atom(n.test)[0] in ('v < 128', 'val < 128')]
         chk.judge(bool(thr), 'C02.vint', f, '%s: values below 128 take one byte' % fname, 'single-byte threshold is no longer 128')
+    # the zig-zag step keeps out-of-range values out of range (so that vints_pack's size test rejects them): no wrap-around mask
+    for zz in ('encode_zig_zag',):
+        fz = mar.func(zz)
+        wide = [n for n in body_walk(fz) if isinstance(n, ast.BinOp) and isinstance(n.op, (ast.BitAnd, ast.Mod))
+                and any(isinstance(x, ast.Constant) and isinstance(x.value, int) and x.value >= 2 ** 31 for x in (n.left, n.right))]
+        chk.judge(not wide, 'C02.range', fz, '%s does not reduce its result modulo 2**64' % zz,
+                  'a duration component outside the signed 64-bit range is wrapped into range by a mask instead of being rejected by vints_pack')
     chk.require('C02.vint', 10)
     chk.require('C02.coll', 60)
 
